@@ -253,7 +253,7 @@ def graphRow20 : GRow where
     (.node 5 [.node 5 [], .node 5 []], .acc),
     (.node 1 [.node 5 [], .node 5 []], .rej),
     (.node 5 [.node 1 [], .node 5 []], .rej),
-    (.node 5 [.node 5 [], .node 1 []], .acc)
+    (.node 5 [.node 5 [], .node 1 []], .rej)
   ]
 
 def graphRow21 : GRow where
@@ -264,8 +264,8 @@ def graphRow21 : GRow where
     (.node 5 [.node 5 [], .node 5 []], .acc),
     (.node 1 [.node 5 [], .node 5 []], .rej),
     (.node 5 [.node 1 [], .node 5 []], .rej),
-    (.node 5 [.node 5 [], .nil], .acc),
-    (.node 5 [.node 5 [], .node 1 []], .acc)
+    (.node 5 [.node 5 [], .nil], .rej),
+    (.node 5 [.node 5 [], .node 1 []], .rej)
   ]
 
 def graphRow22 : GRow where
@@ -279,8 +279,8 @@ def graphRow22 : GRow where
     (.node 5 [.node 5 [], .nil], .rej),
     (.node 5 [.node 5 [], .list []], .acc),
     (.node 5 [.node 5 [], .list [.node 5 [], .node 5 [], .node 5 []]], .rej),
-    (.node 5 [.node 5 [], .list [.node 1 [], .node 5 []]], .acc),
-    (.node 5 [.node 5 [], .list [.node 5 [], .node 1 []]], .acc)
+    (.node 5 [.node 5 [], .list [.node 1 [], .node 5 []]], .rej),
+    (.node 5 [.node 5 [], .list [.node 5 [], .node 1 []]], .rej)
   ]
 
 def graphRow23 : GRow where
@@ -294,8 +294,8 @@ def graphRow23 : GRow where
     (.node 5 [.node 5 [], .nil], .rej),
     (.node 5 [.node 5 [], .list []], .acc),
     (.node 5 [.node 5 [], .list [.node 5 [], .node 5 [], .node 5 []]], .rej),
-    (.node 5 [.node 5 [], .list [.node 1 [], .node 5 []]], .acc),
-    (.node 5 [.node 5 [], .list [.node 5 [], .node 1 []]], .acc)
+    (.node 5 [.node 5 [], .list [.node 1 [], .node 5 []]], .rej),
+    (.node 5 [.node 5 [], .list [.node 5 [], .node 1 []]], .rej)
   ]
 
 def graphRow24 : GRow where
@@ -332,7 +332,7 @@ def graphRow26 : GRow where
     (.node 5 [.node 5 [], .node 5 []], .acc),
     (.node 1 [.node 5 [], .node 5 []], .rej),
     (.node 5 [.node 1 [], .node 5 []], .rej),
-    (.node 5 [.node 5 [], .node 1 []], .acc)
+    (.node 5 [.node 5 [], .node 1 []], .rej)
   ]
 
 def graphRow27 : GRow where
@@ -344,7 +344,7 @@ def graphRow27 : GRow where
     (.node 1 [.node 5 [], .node 5 []], .rej),
     (.node 5 [.nil, .node 5 []], .rej),
     (.node 5 [.node 1 [], .node 5 []], .rej),
-    (.node 5 [.node 5 [], .node 1 []], .acc)
+    (.node 5 [.node 5 [], .node 1 []], .rej)
   ]
 
 def graphRow28 : GRow where
@@ -356,8 +356,8 @@ def graphRow28 : GRow where
     (.node 1 [.node 5 [], .node 5 []], .rej),
     (.node 5 [.nil, .node 5 []], .rej),
     (.node 5 [.node 1 [], .node 5 []], .rej),
-    (.node 5 [.node 5 [], .nil], .acc),
-    (.node 5 [.node 5 [], .node 1 []], .acc)
+    (.node 5 [.node 5 [], .nil], .rej),
+    (.node 5 [.node 5 [], .node 1 []], .rej)
   ]
 
 def graphRow29 : GRow where
@@ -372,8 +372,8 @@ def graphRow29 : GRow where
     (.node 5 [.node 5 [], .nil], .rej),
     (.node 5 [.node 5 [], .list []], .acc),
     (.node 5 [.node 5 [], .list [.node 5 [], .node 5 [], .node 5 []]], .rej),
-    (.node 5 [.node 5 [], .list [.node 1 [], .node 5 []]], .acc),
-    (.node 5 [.node 5 [], .list [.node 5 [], .node 1 []]], .acc)
+    (.node 5 [.node 5 [], .list [.node 1 [], .node 5 []]], .rej),
+    (.node 5 [.node 5 [], .list [.node 5 [], .node 1 []]], .rej)
   ]
 
 def graphRow30 : GRow where
@@ -388,8 +388,8 @@ def graphRow30 : GRow where
     (.node 5 [.node 5 [], .nil], .rej),
     (.node 5 [.node 5 [], .list []], .acc),
     (.node 5 [.node 5 [], .list [.node 5 [], .node 5 [], .node 5 []]], .rej),
-    (.node 5 [.node 5 [], .list [.node 1 [], .node 5 []]], .acc),
-    (.node 5 [.node 5 [], .list [.node 5 [], .node 1 []]], .acc)
+    (.node 5 [.node 5 [], .list [.node 1 [], .node 5 []]], .rej),
+    (.node 5 [.node 5 [], .list [.node 5 [], .node 1 []]], .rej)
   ]
 
 def graphRow31 : GRow where
@@ -429,7 +429,7 @@ def graphRow33 : GRow where
     (.node 1 [.node 5 [], .node 5 []], .rej),
     (.node 5 [.nil, .node 5 []], .rej),
     (.node 5 [.node 1 [], .node 5 []], .rej),
-    (.node 5 [.node 5 [], .node 1 []], .acc)
+    (.node 5 [.node 5 [], .node 1 []], .rej)
   ]
 
 def graphRow34 : GRow where
@@ -444,7 +444,7 @@ def graphRow34 : GRow where
     (.node 5 [.list [.node 5 [], .node 5 [], .node 5 []], .node 5 []], .rej),
     (.node 5 [.list [.node 1 [], .node 5 []], .node 5 []], .rej),
     (.node 5 [.list [.node 5 [], .node 1 []], .node 5 []], .rej),
-    (.node 5 [.list [.node 5 [], .node 5 []], .node 1 []], .acc)
+    (.node 5 [.list [.node 5 [], .node 5 []], .node 1 []], .rej)
   ]
 
 def graphRow35 : GRow where
@@ -459,8 +459,8 @@ def graphRow35 : GRow where
     (.node 5 [.list [.node 5 [], .node 5 [], .node 5 []], .node 5 []], .rej),
     (.node 5 [.list [.node 1 [], .node 5 []], .node 5 []], .rej),
     (.node 5 [.list [.node 5 [], .node 1 []], .node 5 []], .rej),
-    (.node 5 [.list [.node 5 [], .node 5 []], .nil], .acc),
-    (.node 5 [.list [.node 5 [], .node 5 []], .node 1 []], .acc)
+    (.node 5 [.list [.node 5 [], .node 5 []], .nil], .rej),
+    (.node 5 [.list [.node 5 [], .node 5 []], .node 1 []], .rej)
   ]
 
 def graphRow36 : GRow where
@@ -478,8 +478,8 @@ def graphRow36 : GRow where
     (.node 5 [.list [.node 5 [], .node 5 []], .nil], .rej),
     (.node 5 [.list [.node 5 [], .node 5 []], .list []], .acc),
     (.node 5 [.list [.node 5 [], .node 5 []], .list [.node 5 [], .node 5 [], .node 5 []]], .rej),
-    (.node 5 [.list [.node 5 [], .node 5 []], .list [.node 1 [], .node 5 []]], .acc),
-    (.node 5 [.list [.node 5 [], .node 5 []], .list [.node 5 [], .node 1 []]], .acc)
+    (.node 5 [.list [.node 5 [], .node 5 []], .list [.node 1 [], .node 5 []]], .rej),
+    (.node 5 [.list [.node 5 [], .node 5 []], .list [.node 5 [], .node 1 []]], .rej)
   ]
 
 def graphRow37 : GRow where
@@ -497,8 +497,8 @@ def graphRow37 : GRow where
     (.node 5 [.list [.node 5 [], .node 5 []], .nil], .rej),
     (.node 5 [.list [.node 5 [], .node 5 []], .list []], .acc),
     (.node 5 [.list [.node 5 [], .node 5 []], .list [.node 5 [], .node 5 [], .node 5 []]], .rej),
-    (.node 5 [.list [.node 5 [], .node 5 []], .list [.node 1 [], .node 5 []]], .acc),
-    (.node 5 [.list [.node 5 [], .node 5 []], .list [.node 5 [], .node 1 []]], .acc)
+    (.node 5 [.list [.node 5 [], .node 5 []], .list [.node 1 [], .node 5 []]], .rej),
+    (.node 5 [.list [.node 5 [], .node 5 []], .list [.node 5 [], .node 1 []]], .rej)
   ]
 
 def graphRow38 : GRow where
@@ -547,7 +547,7 @@ def graphRow40 : GRow where
     (.node 5 [.list [.node 5 [], .node 5 [], .node 5 []], .node 5 []], .rej),
     (.node 5 [.list [.node 1 [], .node 5 []], .node 5 []], .rej),
     (.node 5 [.list [.node 5 [], .node 1 []], .node 5 []], .rej),
-    (.node 5 [.list [.node 5 [], .node 5 []], .node 1 []], .acc)
+    (.node 5 [.list [.node 5 [], .node 5 []], .node 1 []], .rej)
   ]
 
 def graphRow41 : GRow where
@@ -562,7 +562,7 @@ def graphRow41 : GRow where
     (.node 5 [.list [.node 5 [], .node 5 [], .node 5 []], .node 5 []], .rej),
     (.node 5 [.list [.node 1 [], .node 5 []], .node 5 []], .rej),
     (.node 5 [.list [.node 5 [], .node 1 []], .node 5 []], .rej),
-    (.node 5 [.list [.node 5 [], .node 5 []], .node 1 []], .acc)
+    (.node 5 [.list [.node 5 [], .node 5 []], .node 1 []], .rej)
   ]
 
 def graphRow42 : GRow where
@@ -577,8 +577,8 @@ def graphRow42 : GRow where
     (.node 5 [.list [.node 5 [], .node 5 [], .node 5 []], .node 5 []], .rej),
     (.node 5 [.list [.node 1 [], .node 5 []], .node 5 []], .rej),
     (.node 5 [.list [.node 5 [], .node 1 []], .node 5 []], .rej),
-    (.node 5 [.list [.node 5 [], .node 5 []], .nil], .acc),
-    (.node 5 [.list [.node 5 [], .node 5 []], .node 1 []], .acc)
+    (.node 5 [.list [.node 5 [], .node 5 []], .nil], .rej),
+    (.node 5 [.list [.node 5 [], .node 5 []], .node 1 []], .rej)
   ]
 
 def graphRow43 : GRow where
@@ -596,8 +596,8 @@ def graphRow43 : GRow where
     (.node 5 [.list [.node 5 [], .node 5 []], .nil], .rej),
     (.node 5 [.list [.node 5 [], .node 5 []], .list []], .acc),
     (.node 5 [.list [.node 5 [], .node 5 []], .list [.node 5 [], .node 5 [], .node 5 []]], .rej),
-    (.node 5 [.list [.node 5 [], .node 5 []], .list [.node 1 [], .node 5 []]], .acc),
-    (.node 5 [.list [.node 5 [], .node 5 []], .list [.node 5 [], .node 1 []]], .acc)
+    (.node 5 [.list [.node 5 [], .node 5 []], .list [.node 1 [], .node 5 []]], .rej),
+    (.node 5 [.list [.node 5 [], .node 5 []], .list [.node 5 [], .node 1 []]], .rej)
   ]
 
 def graphRow44 : GRow where
@@ -615,8 +615,8 @@ def graphRow44 : GRow where
     (.node 5 [.list [.node 5 [], .node 5 []], .nil], .rej),
     (.node 5 [.list [.node 5 [], .node 5 []], .list []], .acc),
     (.node 5 [.list [.node 5 [], .node 5 []], .list [.node 5 [], .node 5 [], .node 5 []]], .rej),
-    (.node 5 [.list [.node 5 [], .node 5 []], .list [.node 1 [], .node 5 []]], .acc),
-    (.node 5 [.list [.node 5 [], .node 5 []], .list [.node 5 [], .node 1 []]], .acc)
+    (.node 5 [.list [.node 5 [], .node 5 []], .list [.node 1 [], .node 5 []]], .rej),
+    (.node 5 [.list [.node 5 [], .node 5 []], .list [.node 5 [], .node 1 []]], .rej)
   ]
 
 def graphRow45 : GRow where
@@ -665,7 +665,7 @@ def graphRow47 : GRow where
     (.node 5 [.list [.node 5 [], .node 5 [], .node 5 []], .node 5 []], .rej),
     (.node 5 [.list [.node 1 [], .node 5 []], .node 5 []], .rej),
     (.node 5 [.list [.node 5 [], .node 1 []], .node 5 []], .rej),
-    (.node 5 [.list [.node 5 [], .node 5 []], .node 1 []], .acc)
+    (.node 5 [.list [.node 5 [], .node 5 []], .node 1 []], .rej)
   ]
 
 def graphRow48 : GRow where
@@ -884,7 +884,7 @@ def graphRow62 : GRow where
     (.node 5 [.node 5 [], .node 5 []], .acc),
     (.node 1 [.node 5 [], .node 5 []], .rej),
     (.node 5 [.node 1 [], .node 5 []], .rej),
-    (.node 5 [.node 5 [], .node 1 []], .acc)
+    (.node 5 [.node 5 [], .node 1 []], .rej)
   ]
 
 def graphRow63 : GRow where
@@ -895,8 +895,8 @@ def graphRow63 : GRow where
     (.node 5 [.node 5 [], .node 5 []], .acc),
     (.node 1 [.node 5 [], .node 5 []], .rej),
     (.node 5 [.node 1 [], .node 5 []], .rej),
-    (.node 5 [.node 5 [], .nil], .acc),
-    (.node 5 [.node 5 [], .node 1 []], .acc)
+    (.node 5 [.node 5 [], .nil], .rej),
+    (.node 5 [.node 5 [], .node 1 []], .rej)
   ]
 
 def graphRow64 : GRow where
@@ -910,8 +910,8 @@ def graphRow64 : GRow where
     (.node 5 [.node 5 [], .nil], .rej),
     (.node 5 [.node 5 [], .list []], .acc),
     (.node 5 [.node 5 [], .list [.node 5 [], .node 5 [], .node 5 []]], .rej),
-    (.node 5 [.node 5 [], .list [.node 1 [], .node 5 []]], .acc),
-    (.node 5 [.node 5 [], .list [.node 5 [], .node 1 []]], .acc)
+    (.node 5 [.node 5 [], .list [.node 1 [], .node 5 []]], .rej),
+    (.node 5 [.node 5 [], .list [.node 5 [], .node 1 []]], .rej)
   ]
 
 def graphRow65 : GRow where
@@ -925,8 +925,8 @@ def graphRow65 : GRow where
     (.node 5 [.node 5 [], .nil], .rej),
     (.node 5 [.node 5 [], .list []], .acc),
     (.node 5 [.node 5 [], .list [.node 5 [], .node 5 [], .node 5 []]], .rej),
-    (.node 5 [.node 5 [], .list [.node 1 [], .node 5 []]], .acc),
-    (.node 5 [.node 5 [], .list [.node 5 [], .node 1 []]], .acc)
+    (.node 5 [.node 5 [], .list [.node 1 [], .node 5 []]], .rej),
+    (.node 5 [.node 5 [], .list [.node 5 [], .node 1 []]], .rej)
   ]
 
 def graphRow66 : GRow where
@@ -963,8 +963,8 @@ def graphRow68 : GRow where
     (.node 5 [.node 5 [], .node 5 [], .node 5 []], .acc),
     (.node 1 [.node 5 [], .node 5 [], .node 5 []], .rej),
     (.node 5 [.node 1 [], .node 5 [], .node 5 []], .rej),
-    (.node 5 [.node 5 [], .node 1 [], .node 5 []], .acc),
-    (.node 5 [.node 5 [], .node 5 [], .node 1 []], .acc)
+    (.node 5 [.node 5 [], .node 1 [], .node 5 []], .rej),
+    (.node 5 [.node 5 [], .node 5 [], .node 1 []], .rej)
   ]
 
 def graphRow69 : GRow where
@@ -975,13 +975,13 @@ def graphRow69 : GRow where
     (.node 5 [.node 5 [], .node 5 [], .list [.node 5 [], .node 5 []]], .acc),
     (.node 1 [.node 5 [], .node 5 [], .list [.node 5 [], .node 5 []]], .rej),
     (.node 5 [.node 1 [], .node 5 [], .list [.node 5 [], .node 5 []]], .rej),
-    (.node 5 [.node 5 [], .nil, .list [.node 5 [], .node 5 []]], .acc),
-    (.node 5 [.node 5 [], .node 1 [], .list [.node 5 [], .node 5 []]], .acc),
+    (.node 5 [.node 5 [], .nil, .list [.node 5 [], .node 5 []]], .rej),
+    (.node 5 [.node 5 [], .node 1 [], .list [.node 5 [], .node 5 []]], .rej),
     (.node 5 [.node 5 [], .node 5 [], .nil], .rej),
     (.node 5 [.node 5 [], .node 5 [], .list []], .acc),
     (.node 5 [.node 5 [], .node 5 [], .list [.node 5 [], .node 5 [], .node 5 []]], .rej),
-    (.node 5 [.node 5 [], .node 5 [], .list [.node 1 [], .node 5 []]], .acc),
-    (.node 5 [.node 5 [], .node 5 [], .list [.node 5 [], .node 1 []]], .acc)
+    (.node 5 [.node 5 [], .node 5 [], .list [.node 1 [], .node 5 []]], .rej),
+    (.node 5 [.node 5 [], .node 5 [], .list [.node 5 [], .node 1 []]], .rej)
   ]
 
 def graphRow70 : GRow where
@@ -993,10 +993,10 @@ def graphRow70 : GRow where
     (.node 1 [.node 5 [], .node 5 [], .node 5 []], .rej),
     (.node 5 [.nil, .node 5 [], .node 5 []], .rej),
     (.node 5 [.node 1 [], .node 5 [], .node 5 []], .rej),
-    (.node 5 [.node 5 [], .nil, .node 5 []], .acc),
-    (.node 5 [.node 5 [], .node 1 [], .node 5 []], .acc),
-    (.node 5 [.node 5 [], .node 5 [], .nil], .acc),
-    (.node 5 [.node 5 [], .node 5 [], .node 1 []], .acc)
+    (.node 5 [.node 5 [], .nil, .node 5 []], .rej),
+    (.node 5 [.node 5 [], .node 1 [], .node 5 []], .rej),
+    (.node 5 [.node 5 [], .node 5 [], .nil], .rej),
+    (.node 5 [.node 5 [], .node 5 [], .node 1 []], .rej)
   ]
 
 def graphRow71 : GRow where
@@ -1014,8 +1014,8 @@ def graphRow71 : GRow where
     (.node 5 [.list [.node 5 [], .node 5 []], .nil, .list [.node 5 []]], .rej),
     (.node 5 [.list [.node 5 [], .node 5 []], .list [], .list [.node 5 []]], .acc),
     (.node 5 [.list [.node 5 [], .node 5 []], .list [.node 5 [], .node 5 [], .node 5 []], .list [.node 5 []]], .rej),
-    (.node 5 [.list [.node 5 [], .node 5 []], .list [.node 1 [], .node 5 []], .list [.node 5 []]], .acc),
-    (.node 5 [.list [.node 5 [], .node 5 []], .list [.node 5 [], .node 1 []], .list [.node 5 []]], .acc),
+    (.node 5 [.list [.node 5 [], .node 5 []], .list [.node 1 [], .node 5 []], .list [.node 5 []]], .rej),
+    (.node 5 [.list [.node 5 [], .node 5 []], .list [.node 5 [], .node 1 []], .list [.node 5 []]], .rej),
     (.node 5 [.list [.node 5 [], .node 5 []], .list [.node 5 [], .node 5 []], .nil], .rej),
     (.node 5 [.list [.node 5 [], .node 5 []], .list [.node 5 [], .node 5 []], .list []], .acc),
     (.node 5 [.list [.node 5 [], .node 5 []], .list [.node 5 [], .node 5 []], .list [.node 1 []]], .rej)
@@ -1029,9 +1029,9 @@ def graphRow72 : GRow where
     (.node 5 [.node 5 [], .node 5 [], .node 5 []], .acc),
     (.node 1 [.node 5 [], .node 5 [], .node 5 []], .rej),
     (.node 5 [.node 1 [], .node 5 [], .node 5 []], .rej),
-    (.node 5 [.node 5 [], .node 1 [], .node 5 []], .acc),
-    (.node 5 [.node 5 [], .node 5 [], .nil], .acc),
-    (.node 5 [.node 5 [], .node 5 [], .node 1 []], .acc)
+    (.node 5 [.node 5 [], .node 1 [], .node 5 []], .rej),
+    (.node 5 [.node 5 [], .node 5 [], .nil], .rej),
+    (.node 5 [.node 5 [], .node 5 [], .node 1 []], .rej)
   ]
 
 def graphRow73 : GRow where
@@ -1062,9 +1062,9 @@ def graphRow74 : GRow where
     (.node 5 [.list [.node 5 [], .node 5 [], .node 5 []], .node 5 [], .node 5 []], .rej),
     (.node 5 [.list [.node 1 [], .node 5 []], .node 5 [], .node 5 []], .rej),
     (.node 5 [.list [.node 5 [], .node 1 []], .node 5 [], .node 5 []], .rej),
-    (.node 5 [.list [.node 5 [], .node 5 []], .nil, .node 5 []], .acc),
-    (.node 5 [.list [.node 5 [], .node 5 []], .node 1 [], .node 5 []], .acc),
-    (.node 5 [.list [.node 5 [], .node 5 []], .node 5 [], .node 1 []], .acc)
+    (.node 5 [.list [.node 5 [], .node 5 []], .nil, .node 5 []], .rej),
+    (.node 5 [.list [.node 5 [], .node 5 []], .node 1 [], .node 5 []], .rej),
+    (.node 5 [.list [.node 5 [], .node 5 []], .node 5 [], .node 1 []], .rej)
   ]
 
 def graphRow75 : GRow where
@@ -1076,8 +1076,8 @@ def graphRow75 : GRow where
     (.node 1 [.node 5 [.node 5 []], .node 5 [.node 5 []]], .rej),
     (.node 5 [.node 1 [.node 5 []], .node 5 [.node 5 []]], .rej),
     (.node 5 [.node 5 [.node 1 []], .node 5 [.node 5 []]], .rej),
-    (.node 5 [.node 5 [.node 5 []], .node 1 [.node 5 []]], .acc),
-    (.node 5 [.node 5 [.node 5 []], .node 5 [.node 1 []]], .acc)
+    (.node 5 [.node 5 [.node 5 []], .node 1 [.node 5 []]], .rej),
+    (.node 5 [.node 5 [.node 5 []], .node 5 [.node 1 []]], .rej)
   ]
 
 def graphRow76 : GRow where
@@ -1094,27 +1094,27 @@ def graphRow76 : GRow where
     (.node 5 [.node 5 [.node 5 [], .nil], .list [.node 5 [.node 5 [], .list [.node 5 [], .node 5 []]], .node 5 [.node 5 [], .list [.node 5 [], .node 5 []]]]], .rej),
     (.node 5 [.node 5 [.node 5 [], .list []], .list [.node 5 [.node 5 [], .list [.node 5 [], .node 5 []]], .node 5 [.node 5 [], .list [.node 5 [], .node 5 []]]]], .acc),
     (.node 5 [.node 5 [.node 5 [], .list [.node 5 [], .node 5 [], .node 5 []]], .list [.node 5 [.node 5 [], .list [.node 5 [], .node 5 []]], .node 5 [.node 5 [], .list [.node 5 [], .node 5 []]]]], .rej),
-    (.node 5 [.node 5 [.node 5 [], .list [.node 1 [], .node 5 []]], .list [.node 5 [.node 5 [], .list [.node 5 [], .node 5 []]], .node 5 [.node 5 [], .list [.node 5 [], .node 5 []]]]], .acc),
-    (.node 5 [.node 5 [.node 5 [], .list [.node 5 [], .node 1 []]], .list [.node 5 [.node 5 [], .list [.node 5 [], .node 5 []]], .node 5 [.node 5 [], .list [.node 5 [], .node 5 []]]]], .acc),
+    (.node 5 [.node 5 [.node 5 [], .list [.node 1 [], .node 5 []]], .list [.node 5 [.node 5 [], .list [.node 5 [], .node 5 []]], .node 5 [.node 5 [], .list [.node 5 [], .node 5 []]]]], .rej),
+    (.node 5 [.node 5 [.node 5 [], .list [.node 5 [], .node 1 []]], .list [.node 5 [.node 5 [], .list [.node 5 [], .node 5 []]], .node 5 [.node 5 [], .list [.node 5 [], .node 5 []]]]], .rej),
     (.node 5 [.node 5 [.node 5 [], .list [.node 5 [], .node 5 []]], .nil], .rej),
     (.node 5 [.node 5 [.node 5 [], .list [.node 5 [], .node 5 []]], .list []], .acc),
     (.node 5 [.node 5 [.node 5 [], .list [.node 5 [], .node 5 []]], .list [.node 5 [.node 5 [], .list [.node 5 [], .node 5 []]], .node 5 [.node 5 [], .list [.node 5 [], .node 5 []]], .node 5 [.node 5 [], .list [.node 5 [], .node 5 []]]]], .rej),
-    (.node 5 [.node 5 [.node 5 [], .list [.node 5 [], .node 5 []]], .list [.node 1 [.node 5 [], .list [.node 5 [], .node 5 []]], .node 5 [.node 5 [], .list [.node 5 [], .node 5 []]]]], .acc),
-    (.node 5 [.node 5 [.node 5 [], .list [.node 5 [], .node 5 []]], .list [.node 5 [.nil, .list [.node 5 [], .node 5 []]], .node 5 [.node 5 [], .list [.node 5 [], .node 5 []]]]], .acc),
-    (.node 5 [.node 5 [.node 5 [], .list [.node 5 [], .node 5 []]], .list [.node 5 [.node 1 [], .list [.node 5 [], .node 5 []]], .node 5 [.node 5 [], .list [.node 5 [], .node 5 []]]]], .acc),
-    (.node 5 [.node 5 [.node 5 [], .list [.node 5 [], .node 5 []]], .list [.node 5 [.node 5 [], .nil], .node 5 [.node 5 [], .list [.node 5 [], .node 5 []]]]], .acc),
+    (.node 5 [.node 5 [.node 5 [], .list [.node 5 [], .node 5 []]], .list [.node 1 [.node 5 [], .list [.node 5 [], .node 5 []]], .node 5 [.node 5 [], .list [.node 5 [], .node 5 []]]]], .rej),
+    (.node 5 [.node 5 [.node 5 [], .list [.node 5 [], .node 5 []]], .list [.node 5 [.nil, .list [.node 5 [], .node 5 []]], .node 5 [.node 5 [], .list [.node 5 [], .node 5 []]]]], .rej),
+    (.node 5 [.node 5 [.node 5 [], .list [.node 5 [], .node 5 []]], .list [.node 5 [.node 1 [], .list [.node 5 [], .node 5 []]], .node 5 [.node 5 [], .list [.node 5 [], .node 5 []]]]], .rej),
+    (.node 5 [.node 5 [.node 5 [], .list [.node 5 [], .node 5 []]], .list [.node 5 [.node 5 [], .nil], .node 5 [.node 5 [], .list [.node 5 [], .node 5 []]]]], .rej),
     (.node 5 [.node 5 [.node 5 [], .list [.node 5 [], .node 5 []]], .list [.node 5 [.node 5 [], .list []], .node 5 [.node 5 [], .list [.node 5 [], .node 5 []]]]], .acc),
-    (.node 5 [.node 5 [.node 5 [], .list [.node 5 [], .node 5 []]], .list [.node 5 [.node 5 [], .list [.node 5 [], .node 5 [], .node 5 []]], .node 5 [.node 5 [], .list [.node 5 [], .node 5 []]]]], .acc),
-    (.node 5 [.node 5 [.node 5 [], .list [.node 5 [], .node 5 []]], .list [.node 5 [.node 5 [], .list [.node 1 [], .node 5 []]], .node 5 [.node 5 [], .list [.node 5 [], .node 5 []]]]], .acc),
-    (.node 5 [.node 5 [.node 5 [], .list [.node 5 [], .node 5 []]], .list [.node 5 [.node 5 [], .list [.node 5 [], .node 1 []]], .node 5 [.node 5 [], .list [.node 5 [], .node 5 []]]]], .acc),
-    (.node 5 [.node 5 [.node 5 [], .list [.node 5 [], .node 5 []]], .list [.node 5 [.node 5 [], .list [.node 5 [], .node 5 []]], .node 1 [.node 5 [], .list [.node 5 [], .node 5 []]]]], .acc),
-    (.node 5 [.node 5 [.node 5 [], .list [.node 5 [], .node 5 []]], .list [.node 5 [.node 5 [], .list [.node 5 [], .node 5 []]], .node 5 [.nil, .list [.node 5 [], .node 5 []]]]], .acc),
-    (.node 5 [.node 5 [.node 5 [], .list [.node 5 [], .node 5 []]], .list [.node 5 [.node 5 [], .list [.node 5 [], .node 5 []]], .node 5 [.node 1 [], .list [.node 5 [], .node 5 []]]]], .acc),
-    (.node 5 [.node 5 [.node 5 [], .list [.node 5 [], .node 5 []]], .list [.node 5 [.node 5 [], .list [.node 5 [], .node 5 []]], .node 5 [.node 5 [], .nil]]], .acc),
+    (.node 5 [.node 5 [.node 5 [], .list [.node 5 [], .node 5 []]], .list [.node 5 [.node 5 [], .list [.node 5 [], .node 5 [], .node 5 []]], .node 5 [.node 5 [], .list [.node 5 [], .node 5 []]]]], .rej),
+    (.node 5 [.node 5 [.node 5 [], .list [.node 5 [], .node 5 []]], .list [.node 5 [.node 5 [], .list [.node 1 [], .node 5 []]], .node 5 [.node 5 [], .list [.node 5 [], .node 5 []]]]], .rej),
+    (.node 5 [.node 5 [.node 5 [], .list [.node 5 [], .node 5 []]], .list [.node 5 [.node 5 [], .list [.node 5 [], .node 1 []]], .node 5 [.node 5 [], .list [.node 5 [], .node 5 []]]]], .rej),
+    (.node 5 [.node 5 [.node 5 [], .list [.node 5 [], .node 5 []]], .list [.node 5 [.node 5 [], .list [.node 5 [], .node 5 []]], .node 1 [.node 5 [], .list [.node 5 [], .node 5 []]]]], .rej),
+    (.node 5 [.node 5 [.node 5 [], .list [.node 5 [], .node 5 []]], .list [.node 5 [.node 5 [], .list [.node 5 [], .node 5 []]], .node 5 [.nil, .list [.node 5 [], .node 5 []]]]], .rej),
+    (.node 5 [.node 5 [.node 5 [], .list [.node 5 [], .node 5 []]], .list [.node 5 [.node 5 [], .list [.node 5 [], .node 5 []]], .node 5 [.node 1 [], .list [.node 5 [], .node 5 []]]]], .rej),
+    (.node 5 [.node 5 [.node 5 [], .list [.node 5 [], .node 5 []]], .list [.node 5 [.node 5 [], .list [.node 5 [], .node 5 []]], .node 5 [.node 5 [], .nil]]], .rej),
     (.node 5 [.node 5 [.node 5 [], .list [.node 5 [], .node 5 []]], .list [.node 5 [.node 5 [], .list [.node 5 [], .node 5 []]], .node 5 [.node 5 [], .list []]]], .acc),
-    (.node 5 [.node 5 [.node 5 [], .list [.node 5 [], .node 5 []]], .list [.node 5 [.node 5 [], .list [.node 5 [], .node 5 []]], .node 5 [.node 5 [], .list [.node 5 [], .node 5 [], .node 5 []]]]], .acc),
-    (.node 5 [.node 5 [.node 5 [], .list [.node 5 [], .node 5 []]], .list [.node 5 [.node 5 [], .list [.node 5 [], .node 5 []]], .node 5 [.node 5 [], .list [.node 1 [], .node 5 []]]]], .acc),
-    (.node 5 [.node 5 [.node 5 [], .list [.node 5 [], .node 5 []]], .list [.node 5 [.node 5 [], .list [.node 5 [], .node 5 []]], .node 5 [.node 5 [], .list [.node 5 [], .node 1 []]]]], .acc)
+    (.node 5 [.node 5 [.node 5 [], .list [.node 5 [], .node 5 []]], .list [.node 5 [.node 5 [], .list [.node 5 [], .node 5 []]], .node 5 [.node 5 [], .list [.node 5 [], .node 5 [], .node 5 []]]]], .rej),
+    (.node 5 [.node 5 [.node 5 [], .list [.node 5 [], .node 5 []]], .list [.node 5 [.node 5 [], .list [.node 5 [], .node 5 []]], .node 5 [.node 5 [], .list [.node 1 [], .node 5 []]]]], .rej),
+    (.node 5 [.node 5 [.node 5 [], .list [.node 5 [], .node 5 []]], .list [.node 5 [.node 5 [], .list [.node 5 [], .node 5 []]], .node 5 [.node 5 [], .list [.node 5 [], .node 1 []]]]], .rej)
   ]
 
 def graphRow77 : GRow where
@@ -1127,8 +1127,8 @@ def graphRow77 : GRow where
     (.node 5 [.node 1 [.node 5 []], .node 5 [.node 5 []]], .rej),
     (.node 5 [.node 5 [.node 1 []], .node 5 [.node 5 []]], .rej),
     (.node 5 [.node 5 [.node 5 []], .node 1 [.node 5 []]], .acc),
-    (.node 5 [.node 5 [.node 5 []], .node 5 [.nil]], .acc),
-    (.node 5 [.node 5 [.node 5 []], .node 5 [.node 1 []]], .acc)
+    (.node 5 [.node 5 [.node 5 []], .node 5 [.nil]], .rej),
+    (.node 5 [.node 5 [.node 5 []], .node 5 [.node 1 []]], .rej)
   ]
 
 def graphRow78 : GRow where
@@ -1141,7 +1141,7 @@ def graphRow78 : GRow where
     (.node 5 [.node 1 [.node 5 [.node 5 []]], .node 5 []], .rej),
     (.node 5 [.node 5 [.node 1 [.node 5 []]], .node 5 []], .rej),
     (.node 5 [.node 5 [.node 5 [.node 1 []]], .node 5 []], .rej),
-    (.node 5 [.node 5 [.node 5 [.node 5 []]], .node 1 []], .acc)
+    (.node 5 [.node 5 [.node 5 [.node 5 []]], .node 1 []], .rej)
   ]
 
 def graphRow79 : GRow where
@@ -1158,8 +1158,8 @@ def graphRow79 : GRow where
     (.node 5 [.node 5 [], .node 5 [.node 5 [.nil]]], .rej),
     (.node 5 [.node 5 [], .node 5 [.node 5 [.list []]]], .acc),
     (.node 5 [.node 5 [], .node 5 [.node 5 [.list [.node 5 [], .node 5 [], .node 5 []]]]], .rej),
-    (.node 5 [.node 5 [], .node 5 [.node 5 [.list [.node 1 [], .node 5 []]]]], .acc),
-    (.node 5 [.node 5 [], .node 5 [.node 5 [.list [.node 5 [], .node 1 []]]]], .acc)
+    (.node 5 [.node 5 [], .node 5 [.node 5 [.list [.node 1 [], .node 5 []]]]], .rej),
+    (.node 5 [.node 5 [], .node 5 [.node 5 [.list [.node 5 [], .node 1 []]]]], .rej)
   ]
 
 def graphRow80 : GRow where
@@ -1177,15 +1177,15 @@ def graphRow80 : GRow where
     (.node 5 [.list [.node 5 [.node 5 [], .nil], .node 5 [.node 5 [], .list [.node 5 [], .node 5 []]]], .list [.node 5 [.node 5 [], .list [.node 5 [], .node 5 []]]], .node 5 [.node 5 [], .list [.node 5 [], .node 5 []]]], .rej),
     (.node 5 [.list [.node 5 [.node 5 [], .list []], .node 5 [.node 5 [], .list [.node 5 [], .node 5 []]]], .list [.node 5 [.node 5 [], .list [.node 5 [], .node 5 []]]], .node 5 [.node 5 [], .list [.node 5 [], .node 5 []]]], .acc),
     (.node 5 [.list [.node 5 [.node 5 [], .list [.node 5 [], .node 5 [], .node 5 []]], .node 5 [.node 5 [], .list [.node 5 [], .node 5 []]]], .list [.node 5 [.node 5 [], .list [.node 5 [], .node 5 []]]], .node 5 [.node 5 [], .list [.node 5 [], .node 5 []]]], .rej),
-    (.node 5 [.list [.node 5 [.node 5 [], .list [.node 1 [], .node 5 []]], .node 5 [.node 5 [], .list [.node 5 [], .node 5 []]]], .list [.node 5 [.node 5 [], .list [.node 5 [], .node 5 []]]], .node 5 [.node 5 [], .list [.node 5 [], .node 5 []]]], .acc),
-    (.node 5 [.list [.node 5 [.node 5 [], .list [.node 5 [], .node 1 []]], .node 5 [.node 5 [], .list [.node 5 [], .node 5 []]]], .list [.node 5 [.node 5 [], .list [.node 5 [], .node 5 []]]], .node 5 [.node 5 [], .list [.node 5 [], .node 5 []]]], .acc),
+    (.node 5 [.list [.node 5 [.node 5 [], .list [.node 1 [], .node 5 []]], .node 5 [.node 5 [], .list [.node 5 [], .node 5 []]]], .list [.node 5 [.node 5 [], .list [.node 5 [], .node 5 []]]], .node 5 [.node 5 [], .list [.node 5 [], .node 5 []]]], .rej),
+    (.node 5 [.list [.node 5 [.node 5 [], .list [.node 5 [], .node 1 []]], .node 5 [.node 5 [], .list [.node 5 [], .node 5 []]]], .list [.node 5 [.node 5 [], .list [.node 5 [], .node 5 []]]], .node 5 [.node 5 [], .list [.node 5 [], .node 5 []]]], .rej),
     (.node 5 [.list [.node 5 [.node 5 [], .list [.node 5 [], .node 5 []]], .node 1 [.node 5 [], .list [.node 5 [], .node 5 []]]], .list [.node 5 [.node 5 [], .list [.node 5 [], .node 5 []]]], .node 5 [.node 5 [], .list [.node 5 [], .node 5 []]]], .rej),
     (.node 5 [.list [.node 5 [.node 5 [], .list [.node 5 [], .node 5 []]], .node 5 [.node 1 [], .list [.node 5 [], .node 5 []]]], .list [.node 5 [.node 5 [], .list [.node 5 [], .node 5 []]]], .node 5 [.node 5 [], .list [.node 5 [], .node 5 []]]], .rej),
     (.node 5 [.list [.node 5 [.node 5 [], .list [.node 5 [], .node 5 []]], .node 5 [.node 5 [], .nil]], .list [.node 5 [.node 5 [], .list [.node 5 [], .node 5 []]]], .node 5 [.node 5 [], .list [.node 5 [], .node 5 []]]], .rej),
     (.node 5 [.list [.node 5 [.node 5 [], .list [.node 5 [], .node 5 []]], .node 5 [.node 5 [], .list []]], .list [.node 5 [.node 5 [], .list [.node 5 [], .node 5 []]]], .node 5 [.node 5 [], .list [.node 5 [], .node 5 []]]], .acc),
     (.node 5 [.list [.node 5 [.node 5 [], .list [.node 5 [], .node 5 []]], .node 5 [.node 5 [], .list [.node 5 [], .node 5 [], .node 5 []]]], .list [.node 5 [.node 5 [], .list [.node 5 [], .node 5 []]]], .node 5 [.node 5 [], .list [.node 5 [], .node 5 []]]], .rej),
-    (.node 5 [.list [.node 5 [.node 5 [], .list [.node 5 [], .node 5 []]], .node 5 [.node 5 [], .list [.node 1 [], .node 5 []]]], .list [.node 5 [.node 5 [], .list [.node 5 [], .node 5 []]]], .node 5 [.node 5 [], .list [.node 5 [], .node 5 []]]], .acc),
-    (.node 5 [.list [.node 5 [.node 5 [], .list [.node 5 [], .node 5 []]], .node 5 [.node 5 [], .list [.node 5 [], .node 1 []]]], .list [.node 5 [.node 5 [], .list [.node 5 [], .node 5 []]]], .node 5 [.node 5 [], .list [.node 5 [], .node 5 []]]], .acc),
+    (.node 5 [.list [.node 5 [.node 5 [], .list [.node 5 [], .node 5 []]], .node 5 [.node 5 [], .list [.node 1 [], .node 5 []]]], .list [.node 5 [.node 5 [], .list [.node 5 [], .node 5 []]]], .node 5 [.node 5 [], .list [.node 5 [], .node 5 []]]], .rej),
+    (.node 5 [.list [.node 5 [.node 5 [], .list [.node 5 [], .node 5 []]], .node 5 [.node 5 [], .list [.node 5 [], .node 1 []]]], .list [.node 5 [.node 5 [], .list [.node 5 [], .node 5 []]]], .node 5 [.node 5 [], .list [.node 5 [], .node 5 []]]], .rej),
     (.node 5 [.list [.node 5 [.node 5 [], .list [.node 5 [], .node 5 []]], .node 5 [.node 5 [], .list [.node 5 [], .node 5 []]]], .nil, .node 5 [.node 5 [], .list [.node 5 [], .node 5 []]]], .rej),
     (.node 5 [.list [.node 5 [.node 5 [], .list [.node 5 [], .node 5 []]], .node 5 [.node 5 [], .list [.node 5 [], .node 5 []]]], .list [], .node 5 [.node 5 [], .list [.node 5 [], .node 5 []]]], .acc),
     (.node 5 [.list [.node 5 [.node 5 [], .list [.node 5 [], .node 5 []]], .node 5 [.node 5 [], .list [.node 5 [], .node 5 []]]], .list [.node 1 [.node 5 [], .list [.node 5 [], .node 5 []]]], .node 5 [.node 5 [], .list [.node 5 [], .node 5 []]]], .rej),
@@ -1193,15 +1193,15 @@ def graphRow80 : GRow where
     (.node 5 [.list [.node 5 [.node 5 [], .list [.node 5 [], .node 5 []]], .node 5 [.node 5 [], .list [.node 5 [], .node 5 []]]], .list [.node 5 [.node 5 [], .nil]], .node 5 [.node 5 [], .list [.node 5 [], .node 5 []]]], .rej),
     (.node 5 [.list [.node 5 [.node 5 [], .list [.node 5 [], .node 5 []]], .node 5 [.node 5 [], .list [.node 5 [], .node 5 []]]], .list [.node 5 [.node 5 [], .list []]], .node 5 [.node 5 [], .list [.node 5 [], .node 5 []]]], .acc),
     (.node 5 [.list [.node 5 [.node 5 [], .list [.node 5 [], .node 5 []]], .node 5 [.node 5 [], .list [.node 5 [], .node 5 []]]], .list [.node 5 [.node 5 [], .list [.node 5 [], .node 5 [], .node 5 []]]], .node 5 [.node 5 [], .list [.node 5 [], .node 5 []]]], .rej),
-    (.node 5 [.list [.node 5 [.node 5 [], .list [.node 5 [], .node 5 []]], .node 5 [.node 5 [], .list [.node 5 [], .node 5 []]]], .list [.node 5 [.node 5 [], .list [.node 1 [], .node 5 []]]], .node 5 [.node 5 [], .list [.node 5 [], .node 5 []]]], .acc),
-    (.node 5 [.list [.node 5 [.node 5 [], .list [.node 5 [], .node 5 []]], .node 5 [.node 5 [], .list [.node 5 [], .node 5 []]]], .list [.node 5 [.node 5 [], .list [.node 5 [], .node 1 []]]], .node 5 [.node 5 [], .list [.node 5 [], .node 5 []]]], .acc),
-    (.node 5 [.list [.node 5 [.node 5 [], .list [.node 5 [], .node 5 []]], .node 5 [.node 5 [], .list [.node 5 [], .node 5 []]]], .list [.node 5 [.node 5 [], .list [.node 5 [], .node 5 []]]], .node 1 [.node 5 [], .list [.node 5 [], .node 5 []]]], .acc),
-    (.node 5 [.list [.node 5 [.node 5 [], .list [.node 5 [], .node 5 []]], .node 5 [.node 5 [], .list [.node 5 [], .node 5 []]]], .list [.node 5 [.node 5 [], .list [.node 5 [], .node 5 []]]], .node 5 [.node 1 [], .list [.node 5 [], .node 5 []]]], .acc),
-    (.node 5 [.list [.node 5 [.node 5 [], .list [.node 5 [], .node 5 []]], .node 5 [.node 5 [], .list [.node 5 [], .node 5 []]]], .list [.node 5 [.node 5 [], .list [.node 5 [], .node 5 []]]], .node 5 [.node 5 [], .nil]], .acc),
+    (.node 5 [.list [.node 5 [.node 5 [], .list [.node 5 [], .node 5 []]], .node 5 [.node 5 [], .list [.node 5 [], .node 5 []]]], .list [.node 5 [.node 5 [], .list [.node 1 [], .node 5 []]]], .node 5 [.node 5 [], .list [.node 5 [], .node 5 []]]], .rej),
+    (.node 5 [.list [.node 5 [.node 5 [], .list [.node 5 [], .node 5 []]], .node 5 [.node 5 [], .list [.node 5 [], .node 5 []]]], .list [.node 5 [.node 5 [], .list [.node 5 [], .node 1 []]]], .node 5 [.node 5 [], .list [.node 5 [], .node 5 []]]], .rej),
+    (.node 5 [.list [.node 5 [.node 5 [], .list [.node 5 [], .node 5 []]], .node 5 [.node 5 [], .list [.node 5 [], .node 5 []]]], .list [.node 5 [.node 5 [], .list [.node 5 [], .node 5 []]]], .node 1 [.node 5 [], .list [.node 5 [], .node 5 []]]], .rej),
+    (.node 5 [.list [.node 5 [.node 5 [], .list [.node 5 [], .node 5 []]], .node 5 [.node 5 [], .list [.node 5 [], .node 5 []]]], .list [.node 5 [.node 5 [], .list [.node 5 [], .node 5 []]]], .node 5 [.node 1 [], .list [.node 5 [], .node 5 []]]], .rej),
+    (.node 5 [.list [.node 5 [.node 5 [], .list [.node 5 [], .node 5 []]], .node 5 [.node 5 [], .list [.node 5 [], .node 5 []]]], .list [.node 5 [.node 5 [], .list [.node 5 [], .node 5 []]]], .node 5 [.node 5 [], .nil]], .rej),
     (.node 5 [.list [.node 5 [.node 5 [], .list [.node 5 [], .node 5 []]], .node 5 [.node 5 [], .list [.node 5 [], .node 5 []]]], .list [.node 5 [.node 5 [], .list [.node 5 [], .node 5 []]]], .node 5 [.node 5 [], .list []]], .acc),
-    (.node 5 [.list [.node 5 [.node 5 [], .list [.node 5 [], .node 5 []]], .node 5 [.node 5 [], .list [.node 5 [], .node 5 []]]], .list [.node 5 [.node 5 [], .list [.node 5 [], .node 5 []]]], .node 5 [.node 5 [], .list [.node 5 [], .node 5 [], .node 5 []]]], .acc),
-    (.node 5 [.list [.node 5 [.node 5 [], .list [.node 5 [], .node 5 []]], .node 5 [.node 5 [], .list [.node 5 [], .node 5 []]]], .list [.node 5 [.node 5 [], .list [.node 5 [], .node 5 []]]], .node 5 [.node 5 [], .list [.node 1 [], .node 5 []]]], .acc),
-    (.node 5 [.list [.node 5 [.node 5 [], .list [.node 5 [], .node 5 []]], .node 5 [.node 5 [], .list [.node 5 [], .node 5 []]]], .list [.node 5 [.node 5 [], .list [.node 5 [], .node 5 []]]], .node 5 [.node 5 [], .list [.node 5 [], .node 1 []]]], .acc)
+    (.node 5 [.list [.node 5 [.node 5 [], .list [.node 5 [], .node 5 []]], .node 5 [.node 5 [], .list [.node 5 [], .node 5 []]]], .list [.node 5 [.node 5 [], .list [.node 5 [], .node 5 []]]], .node 5 [.node 5 [], .list [.node 5 [], .node 5 [], .node 5 []]]], .rej),
+    (.node 5 [.list [.node 5 [.node 5 [], .list [.node 5 [], .node 5 []]], .node 5 [.node 5 [], .list [.node 5 [], .node 5 []]]], .list [.node 5 [.node 5 [], .list [.node 5 [], .node 5 []]]], .node 5 [.node 5 [], .list [.node 1 [], .node 5 []]]], .rej),
+    (.node 5 [.list [.node 5 [.node 5 [], .list [.node 5 [], .node 5 []]], .node 5 [.node 5 [], .list [.node 5 [], .node 5 []]]], .list [.node 5 [.node 5 [], .list [.node 5 [], .node 5 []]]], .node 5 [.node 5 [], .list [.node 5 [], .node 1 []]]], .rej)
   ]
 
 def graphRow81 : GRow where
@@ -1308,8 +1308,8 @@ def graphRow87 : GRow where
     (.node 5 [.list [.node 5 [.list [], .node 5 [], .node 5 []], .node 5 [.list [], .node 5 [], .nil]], .node 5 [], .node 5 []], .acc),
     (.node 5 [.list [.node 5 [.list [], .node 5 [], .node 5 []], .node 5 [.list [], .node 5 [], .node 1 []]], .node 5 [], .node 5 []], .acc),
     (.node 5 [.list [.node 5 [.list [], .node 5 [], .node 5 []], .node 5 [.list [], .node 5 [], .node 5 []]], .node 1 [], .node 5 []], .rej),
-    (.node 5 [.list [.node 5 [.list [], .node 5 [], .node 5 []], .node 5 [.list [], .node 5 [], .node 5 []]], .node 5 [], .nil], .acc),
-    (.node 5 [.list [.node 5 [.list [], .node 5 [], .node 5 []], .node 5 [.list [], .node 5 [], .node 5 []]], .node 5 [], .node 1 []], .acc)
+    (.node 5 [.list [.node 5 [.list [], .node 5 [], .node 5 []], .node 5 [.list [], .node 5 [], .node 5 []]], .node 5 [], .nil], .rej),
+    (.node 5 [.list [.node 5 [.list [], .node 5 [], .node 5 []], .node 5 [.list [], .node 5 [], .node 5 []]], .node 5 [], .node 1 []], .rej)
   ]
 
 def graphRow88 : GRow where
@@ -1406,10 +1406,10 @@ def graphRow90 : GRow where
     (.node 5 [.node 5 [.list [.node 5 [.nil], .node 5 [.list []]]], .node 5 [.list [.node 5 [.list []], .node 5 [.list []]]]], .acc),
     (.node 5 [.node 5 [.list [.node 5 [.list []], .node 1 [.list []]]], .node 5 [.list [.node 5 [.list []], .node 5 [.list []]]]], .acc),
     (.node 5 [.node 5 [.list [.node 5 [.list []], .node 5 [.nil]]], .node 5 [.list [.node 5 [.list []], .node 5 [.list []]]]], .acc),
-    (.node 5 [.node 5 [.list [.node 5 [.list []], .node 5 [.list []]]], .node 1 [.list [.node 5 [.list []], .node 5 [.list []]]]], .acc),
-    (.node 5 [.node 5 [.list [.node 5 [.list []], .node 5 [.list []]]], .node 5 [.nil]], .acc),
+    (.node 5 [.node 5 [.list [.node 5 [.list []], .node 5 [.list []]]], .node 1 [.list [.node 5 [.list []], .node 5 [.list []]]]], .rej),
+    (.node 5 [.node 5 [.list [.node 5 [.list []], .node 5 [.list []]]], .node 5 [.nil]], .rej),
     (.node 5 [.node 5 [.list [.node 5 [.list []], .node 5 [.list []]]], .node 5 [.list []]], .acc),
-    (.node 5 [.node 5 [.list [.node 5 [.list []], .node 5 [.list []]]], .node 5 [.list [.node 5 [.list []], .node 5 [.list []], .node 5 [.list []]]]], .acc),
+    (.node 5 [.node 5 [.list [.node 5 [.list []], .node 5 [.list []]]], .node 5 [.list [.node 5 [.list []], .node 5 [.list []], .node 5 [.list []]]]], .rej),
     (.node 5 [.node 5 [.list [.node 5 [.list []], .node 5 [.list []]]], .node 5 [.list [.node 1 [.list []], .node 5 [.list []]]]], .acc),
     (.node 5 [.node 5 [.list [.node 5 [.list []], .node 5 [.list []]]], .node 5 [.list [.node 5 [.nil], .node 5 [.list []]]]], .acc),
     (.node 5 [.node 5 [.list [.node 5 [.list []], .node 5 [.list []]]], .node 5 [.list [.node 5 [.list []], .node 1 [.list []]]]], .acc),
